@@ -218,6 +218,12 @@ Definition verdict_C13_any (c : case + nat) : nat :=
   match c with inl k => verdict_C13 k | inr 1 => 0 | inr _ => 2 end.
 Definition wfc (k : case) : case + nat := inl k.
 Definition asserted (n : nat) : case + nat := inr n.
+(* C05: states, callback phases and arguments, results and exceptions of the (a)sync twin *)
+Definition fl_C05 := {| f_val := true; f_exn := true; f_field := true; f_allowed := true;
+                        f_ids := true; f_ctx := true; f_nested := true; f_depth := false |}.
+Definition verdict_C05 := verdict_with fl_C05.
+Definition verdict_C05_any (c : case + nat) : nat :=
+  match c with inl k => verdict_C05 k | inr 1 => 0 | inr _ => 2 end.
 Definition verdict_all := verdict_with fl_all.
 Definition verdict_C01 := verdict_with fl_C01.
 Definition verdict_C02 := verdict_with fl_C02.
